@@ -25,6 +25,7 @@ func runC17(r *engine.Run) {
 	r.Rule("ERR-guard", "wherever the error of a call is compared with nil and one successor of the test is a plain return block, that successor is the error != nil edge and returns a non-nil error (the error itself, a sentinel or a constructed error); an early return handing back the error on the edge where it is nil is a swapped test")
 	r.Rule("ERR-dropped", "the error result of every repository operation (trie, node store, storage adapter/batcher methods) called here is looked at - compared, returned or stored; deliberate drops are an explicit table with reasons")
 	r.Rule("DOM-nodefound", "a node store reports a node as found only for what it holds: MemoryNodeDB.getNode returns a nil error only where its map lookup's found flag tested true; PNodeDB.GetNode decodes only where the fetched bytes tested non-empty (otherwise ErrNodeNotFound)")
+	r.Rule("ORDER-publish", "in insertForeignNode (the per-node step of MergeDB) the node enters the trie's cache and change collector only after PutNode returned a nil error (dominance + error fact): a failed store write is not masked by the cache")
 	r.NotDec = append(r.NotDec, "exactness of the reported key set for every removal subset")
 	errGetNode(r)
 	depCount(r)
@@ -39,6 +40,7 @@ func runC17(r *engine.Run) {
 	lockstep(r)
 	domRecord(r, "DOM-record")
 	domNodeFound(r, "DOM-nodefound")
+	orderPublish17(r, "ORDER-publish")
 	errGuard(r, "ERR-guard", "ERR-dropped", funcsOfPkg(r, pkgUtil), 20)
 }
 
@@ -553,5 +555,58 @@ func domNodeFound(r *engine.Run, rule string) {
 	}
 	if n < 2 {
 		r.Anchor(rule, fmt.Errorf("unresolved anchor: %d lookup results of the node stores", n))
+	}
+}
+
+// orderPublish17: a node merged from another store becomes visible to this trie
+// (node cache, change collector) only after its write into the trie's store has
+// succeeded: in insertForeignNode the PutNode call dominates cache.Set and
+// AddChange, and its error is returned before them. Otherwise a failed write
+// leaves a node that the trie reads from its cache and no longer reports missing.
+func orderPublish17(r *engine.Run, rule string) {
+	f := r.Fn(rule, pkgUtil, "MerklePatriciaTrie", "insertForeignNode")
+	if f == nil {
+		return
+	}
+	var put *ssa.Call
+	var pubs []*ssa.Call
+	engine.Instrs(f, func(in ssa.Instruction) {
+		c, ok := in.(*ssa.Call)
+		if !ok {
+			return
+		}
+		switch {
+		case invokeOnField(c, "db", "PutNode"):
+			put = c
+		case invokeOnField(c, "ChangeCollector", "AddChange"):
+			pubs = append(pubs, c)
+		default:
+			if rv, is := engine.IsMethodCall(c, "Set"); is {
+				if fld := fieldLoadOf(rv); fld != nil && fld.Name() == "cache" {
+					pubs = append(pubs, c)
+				}
+			}
+		}
+	})
+	if put == nil || len(pubs) == 0 {
+		r.Anchor(rule, fmt.Errorf("unresolved anchor: store write / publication calls in %s", fn(f)))
+		return
+	}
+	o := ord{}
+	for _, p := range pubs {
+		good := engine.InstrDominates(put, p)
+		if good {
+			// and only where the write's error tested nil
+			good = false
+			if facts, ok := engine.FactsOn(f, p.Block()); ok {
+				for _, ft := range facts {
+					if ft.Kind == "eq" && ft.Truth && (ft.A == ssa.Value(put) && nilConst(ft.B) || ft.B == ssa.Value(put) && nilConst(ft.A)) {
+						good = true
+					}
+				}
+			}
+		}
+		r.Check(good, rule, o.next(fn(f)+"|publish after write"), r.P.Pos(p.Pos()), "reached only after PutNode returned a nil error",
+			"a merged node is put into the trie's cache / change set before (or regardless of whether) its store write succeeded: after a failed write the trie serves the node from its cache and stops reporting it missing, while the store still lacks it")
 	}
 }
